@@ -106,6 +106,13 @@ class SaveSim:
         meta = None
         if world['time']:
             world['time']['units'], meta = gen_time_units(rng)
+        if world['time'] and world['time']['n'] >= 3 and rng.random() < 0.2:
+            # records that are not in chronological order (or repeat an instant): files are not always sorted
+            vals_ = list(world['time']['values'])
+            rng.shuffle(vals_)
+            if rng.random() < 0.4:
+                vals_[-1] = vals_[0]
+            world['time']['values'] = vals_
         tz = rng.choice(TZS)
         steps = []
         n_steps = rng.choice([1, 1, 2, 2, 3, 4 if big else 2])
@@ -134,6 +141,9 @@ class SaveSim:
             steps.append({'op': 'save', 'src': src, 'via': via, 'path': path, 'faults': faults, 'end': end})
             if rng.random() < 0.25:
                 steps[-1]['relative_path'] = True
+            if world['time'] and src == 'world' and rng.random() < 0.12:
+                steps[-1]['pick_record'] = rng.randrange(world['time']['n'])
+                steps[-1]['path'] = path = f'pick{k}.nc'      # a file of its own: never the source of a later full save
             if not faults and rng.random() < 0.3:
                 steps[-1]['again'] = f'again{k}.nc'      # the same in-memory object saved a second time (nothing the first save did to it may matter)
             if faults and faults[0]['kind'] not in ('crash', 'crash_after') and rng.random() < 0.5:
@@ -238,7 +248,8 @@ class SaveSim:
                     acked_any = True
                     units2 = self.judge(out, world, step, obs2['obs']['file'], res['obs'].get('pre'), k)
                     out.event('judged_inproc_retry', step=k, units=units2)
-                    prev_path, prev_units = path2, units2
+                    if step.get('pick_record') is None:
+                        prev_path, prev_units = path2, units2
                 continue
             # acknowledged: another process reads the file
             path = os.path.join(scratch, step['path'])
@@ -262,7 +273,8 @@ class SaveSim:
             out.event('judged', step=k, units=units, summary=observe.summarise_observation(fobs.get('decoded')))
             if step['src'] == 'prev' and src_path and prev_units is not None and units is not None and units != prev_units:
                 out.violate('C17', 'units-fixed-point', None, f'units changed across a save cycle: {prev_units!r} -> {units!r}')
-            prev_path, prev_units = path, units
+            if step.get('pick_record') is None:
+                prev_path, prev_units = path, units      # (a single picked record is not a source for later full saves)
             if step.get('again'):
                 rdone = [p for kk, p in res['events'] if kk == 'retry_done']
                 rraised = [p for kk, p in res['events'] if kk == 'retry_raised']
@@ -314,11 +326,15 @@ class SaveSim:
                 if polys != tl:
                     out.violate(P, 'polygons', None, 'polygons differ from ground truth')
         # data variables vs truth
+        picked = step.get('pick_record')
+        tdim_ = world.spec['time']['dim'] if world.spec['time'] else None
         for name, info in world.vars.items():
             ov = dec['vars'].get(name)
             if ov is None:
                 out.violate(P, 'values', None, f'variable {name} missing from saved file')
                 continue
+            if picked is not None and tdim_ in info['dims']:
+                continue      # one record of it was saved: judged through the time coordinate and the units below
             canon = common.to_canonical(ov, info)
             want = world.canonical_array(name).reshape(info['eshape'] + info['sshape'])
             if canon is None or not common.arrays_equal_nan(canon, want):
@@ -327,6 +343,8 @@ class SaveSim:
         if pre:
             for name, pv in pre['vars'].items():
                 if name in world.vars:
+                    continue
+                if picked is not None and tdim_ in pv['dims']:
                     continue
                 ov = dec['vars'].get(name)
                 if ov is None:
@@ -343,11 +361,13 @@ class SaveSim:
         if t:
             tv = dec['vars'].get(t['name'])
             want = world.time_instants()
+            if picked is not None:
+                want = [want[picked % len(want)]]
             if tv is None or tv['values'].dtype.kind != 'M':
                 out.violate(P, 'time-instants', None, f'time variable missing or not decoded: {None if tv is None else tv["dtype"]}')
             else:
-                got = tv['values'].astype('datetime64[s]').astype('int64').tolist()
-                sub = tv['values'].astype('datetime64[ns]').astype('int64') % 1_000_000_000
+                got = numpy.atleast_1d(tv['values']).astype('datetime64[s]').astype('int64').tolist()
+                sub = numpy.atleast_1d(tv['values']).astype('datetime64[ns]').astype('int64') % 1_000_000_000
                 if got != want or sub.any():
                     out.violate(P, 'time-instants', None, f'time instants differ: got {got[:3]} want {want[:3]}')
             rv = raw.get(t['name'])
@@ -458,6 +478,11 @@ def _save_lifetime(ctx, world_spec, step, scratch, tz, src_path):
         pre = None
         ctx.emit('pre_observe_failed', **{k: v for k, v in observe.exc_info(e).items() if k != 'msg'})
     ctx.observe('pre', pre)
+    if step.get('pick_record') is not None and world_spec['time']:
+        # one record picked out of the file (isel(time=k)): the time coordinate is a scalar now
+        tdim__ = world_spec['time']['dim']
+        ds = ds.isel({tdim__: step['pick_record'] % ds.sizes[tdim__]})
+        ctx.emit('probe', name='scalar_time_coordinate')
     path = os.path.join(scratch, step['path'])
     if step.get('relative_path'):
         # the caller works inside the output directory and gives a bare file name
